@@ -3,10 +3,17 @@
 are helpers introduced by a later refactoring: the rule engine splices them into their callers."""
 import json, os, subprocess, sys
 VERIF = os.path.dirname(os.path.dirname(os.path.abspath(__file__)))
-r = subprocess.run([os.path.join(VERIF, 'check'), '--setup'], stdout=subprocess.PIPE, text=True)
-facts = sorted((f for f in os.listdir(os.path.join(VERIF, '.cache')) if f.startswith('facts-')),
-               key=lambda f: os.path.getmtime(os.path.join(VERIF, '.cache', f)))[-1]
+import importlib.machinery, importlib.util
+loader = importlib.machinery.SourceFileLoader('checkmod', os.path.join(VERIF, 'check'))
+spec = importlib.util.spec_from_loader('checkmod', loader)
+cm = importlib.util.module_from_spec(spec)
+loader.exec_module(cm)
+facts_path = cm.extract('/repo')
+facts = os.path.basename(facts_path)
 j = json.load(open(os.path.join(VERIF, '.cache', facts)))
-names = sorted(b['path'] for b in j['bodies'] if b['kind'] != 'Closure')
-json.dump(names, open(os.path.join(VERIF, 'rules', 'known_functions.json'), 'w'), indent=0)
+def sig(b):
+    cs = sorted(set(bl['term'].get('callee', '') for bl in b['blocks'] if bl['term']['k'] == 'call' and not bl['cleanup']))
+    return [b['arg_count'], cs]
+names = dict((b['path'], sig(b)) for b in j['bodies'] if b['kind'] != 'Closure')
+json.dump(names, open(os.path.join(VERIF, 'rules', 'known_functions.json'), 'w'), indent=0, sort_keys=True)
 print(len(names), 'functions recorded from', facts)
